@@ -70,8 +70,11 @@ def env_of(kind):
     if kind not in _ENV:
         from lerax.env.unitree.g1 import locomotion, standing, standup
         # NON-default ranges: a call site that forgets to forward a configured range falls back to randomize_model's defaults and is caught
+        # ... and every configurable range differs from every other one, so that a range used in the wrong place (copy-paste of a bound) is visible
+        extra = dict(lin_vel_x_range=(-0.8, 1.2), lin_vel_y_range=(-0.4, 0.3), ang_vel_yaw_range=(-0.6, 0.7), gait_frequency_range=(1.1, 1.6)) if kind == "locomotion" else {}
         _ENV[kind] = {"locomotion": locomotion.G1Locomotion, "standing": standing.G1Standing, "standup": standup.G1Standup}[kind](
-            friction_range=(0.3, 0.9), friction_loss_scale_range=(0.6, 1.8), armature_scale_range=(1.0, 1.2), mass_scale_range=(0.8, 1.25), torso_offset_range=(0.5, 2.0))
+            friction_range=(0.3, 0.9), friction_loss_scale_range=(0.6, 1.8), armature_scale_range=(1.0, 1.2), mass_scale_range=(0.8, 1.25), torso_offset_range=(0.5, 2.0),
+            push_interval_range=(4.0, 9.0), push_magnitude_range=(0.2, 1.7), **extra)
     return _ENV[kind]
 
 
@@ -340,7 +343,7 @@ def unit_initial(kind):
             rngs = [env.lin_vel_x_range, env.lin_vel_y_range, env.ang_vel_yaw_range]
             goal = sand(*[z3.Or(st.command.at((i_,)) == 0, z3.And(st.command.at((i_,)) >= ir.zreal(ir.const_float(np.float32(r[0]))), st.command.at((i_,)) <= ir.zreal(ir.const_float(np.float32(r[1])))))
                           for i_, r in enumerate(rngs)])
-            S.prove(f"{kind}.initial/command-within-range", ctx, goal, hyps=ax, function=fn, what="the velocity command lies within its configured ranges (or is the zero command)")
+            S.prove(f"{kind}.initial/command-within-range", ctx, goal, hyps=ax, function=fn, replay=native_command_replay, what="the velocity command lies within its configured ranges (or is the zero command)")
             gf = env.gait_frequency_range
             S.prove(f"{kind}.initial/gait-frequency-within-range", ctx, z3.And(st.gait_frequency.scalar() >= ir.zreal(ir.const_float(np.float32(gf[0]))),
                                                                                 st.gait_frequency.scalar() <= ir.zreal(ir.const_float(np.float32(gf[1])))), hyps=ax, function=fn,
@@ -355,6 +358,24 @@ def unit_initial(kind):
             else:
                 S.fact(f"{kind}.initial/gait-frequency-constant", ir.is_const(gfs), function=fn, what="the gait frequency is a fixed constant for this task", detail=str(gfs))
     return unit
+
+
+def native_command_replay(model):
+    """R1: 2048 real sample_command draws (vmapped over keys) of a G1Locomotion whose command / frequency ranges are pairwise different: every component within ITS range or the zero command."""
+    env = env_of("locomotion")
+    keys = jax.random.split(jax.random.key(0), 2048)
+    out = jax.jit(jax.vmap(lambda k: env.sample_command(key=k)))(keys)
+    cmd = np.asarray(out[0] if isinstance(out, tuple) else out, np.float64)
+    rngs = [env.lin_vel_x_range, env.lin_vel_y_range, env.ang_vel_yaw_range]
+    bad = {}
+    for i, (lo, hi) in enumerate(rngs):
+        col = cmd[:, i]
+        viol = (col != 0) & ((col < lo - 1e-6) | (col > hi + 1e-6))
+        if viol.any():
+            bad[["lin_vel_x", "lin_vel_y", "ang_vel_yaw"][i]] = dict(configured_range=[lo, hi], out_of_range=int(viol.sum()), min=float(col.min()), max=float(col.max()))
+    if bad:
+        return dict(reproduced=True, route="R1 (real G1Locomotion.sample_command, 2048 keys)", inputs=dict(ranges=[list(r) for r in rngs], key_seed=0), observed=bad)
+    return dict(reproduced=False, note="2048 commands: each component within its own configured range (or zero)")
 
 
 def native_phase_replay(kind):
